@@ -2,14 +2,18 @@
    site_update / acc keep the invariant, the tree and the isometry attribute; move_center keeps all of them and
    arrives; the link update (split_node_qr, cache read, link evolution, contract_nodes(link, next)) moves the
    centre along an edge like one canonicalisation step but with ITS OWN child order (weffect).
+   Second half: the operations SUCCEED on a well-formed store (split_nodes with the QR leg specifications toward a
+   neighbour, contract_nodes of two adjacent nodes, hence qr_to_neighbour, the link update and move_center).
+   Third part: tensor shapes - a centre move in KEEP mode registers one fresh wire whose dimension is that of the wire
+   it replaces, every other leg keeps its wire (dims_kept).
    Proofs only.  The run-level theorems are in Evo/TDVPStoreProofs.v. *)
 From Coq Require Import List Arith Bool Lia Permutation ZArith.
 From PTN Require Import TTN.Store TTN.StoreProofs TTN.Canon TTN.CanonProofs TTN.Inv TTN.InvProofs TTN.InvNode TTN.InvBuild
-  TTN.InvContract TTN.InvSplit TTN.CanonTree TTN.CanonMore TTN.CanonStep TTN.CanonDist TTN.CanonPath TTN.CanonIso.
+  TTN.InvContract TTN.InvSplit TTN.InvEdit TTN.CanonTree TTN.CanonMore TTN.CanonStep TTN.CanonDist TTN.CanonPath TTN.CanonIso.
 From PTN Require Import Evo.TDVPStore.
 Import ListNotations.
 
-(* ==== part 1 ==== *)
+(* ==== effects, part 1 ==== *)
 Ltac nlia := unfold id, wire in *; lia.
 
 (* ---- weak step effect: what one move of the centre along an edge does, children up to order ------------ *)
@@ -18,7 +22,7 @@ Record weffect (s : store) (n nb : id) (s' : store) (nd : node) : Prop := {
       aget n (nodes s') = Some nd' /\ aget n (tensors s') = Some t' /\ atoms t' = [kq df] /\
       In df (defs s') /\ kkind df = 0 /\ neighbour_index nd' nb = Some leg /\
       nth (nth leg (perm nd') 0) (axes t') 0 = kbond df /\
-      parent nd' = parent nd /\ Permutation (children nd') (children nd);
+      parent nd' = parent nd /\ Permutation (children nd') (children nd) /\ kbond df = next_wire s;
   we_defs : incl (defs s) (defs s');
   we_other_n : forall k, k <> n -> k <> nb -> aget k (nodes s') = aget k (nodes s);
   we_other_t : forall k, k <> n -> k <> nb -> In k (akeys (nodes s)) -> aget k (tensors s') = aget k (tensors s);
@@ -35,7 +39,7 @@ Proof.
   assert (S : same_tree (nodes s) (nodes s')).
   { split; [symmetry; apply (proj2 (we_keys _ _ _ _ _ W))|].
     intros k. destruct (Nat.eq_dec k n) as [->|Hkn].
-    - destruct (we_node _ _ _ _ _ W) as (nd' & t' & leg & df & En' & _ & _ & _ & _ & _ & _ & Hp & Hc).
+    - destruct (we_node _ _ _ _ _ W) as (nd' & t' & leg & df & En' & _ & _ & _ & _ & _ & _ & Hp & Hc & _).
       rewrite E0, En'. split; [symmetry; exact Hp|symmetry; exact Hc].
     - destruct (Nat.eq_dec k nb) as [->|Hkb].
       + destruct (we_nb _ _ _ _ _ W) as (nbn & nbn' & Eb & Eb' & Hp & Hc).
@@ -100,7 +104,7 @@ Proof.
   exists ndk, t, a, leg, x, df. rewrite (Hn k Hkc), (Ht k Hkc Hk). repeat split; try tauto. apply Hd. tauto.
 Qed.
 
-(* ==== part 2 ==== *)
+(* ==== effects, part 2 ==== *)
 (* the invariant does not look at atoms, the atom table, the kernel log or the atom counter *)
 Lemma wfb_fields s s' :
   nodes s' = nodes s -> tensors s' = tensors s -> root s' = root s -> dims s' = dims s -> next_wire s' = next_wire s ->
@@ -200,7 +204,7 @@ Proof.
   - rewrite aget_aset_other by exact H0. apply (Ho k H0).
 Qed.
 
-(* ==== part 3 ==== *)
+(* ==== effects, part 3 ==== *)
 Lemma neighbour_index_bound n x i : neighbour_index n x = Some i -> i < nvirt n.
 Proof.
   destruct (option_eq_dec_id (parent n) (Some x)) as [E|E].
@@ -291,8 +295,8 @@ Proof.
   destruct (same_tree_some _ _ _ _ S En) as (rn2 & E2 & P2 & _). symmetry. apply (Hu' r rn2 E2). congruence.
 Qed.
 
-(* ==== part 4 ==== *)
-Lemma In_remove_first x y l : In x (remove_first y l) -> In x l.
+(* ==== effects, part 4 ==== *)
+Lemma In_remove_first_in x y l : In x (remove_first y l) -> In x l.
 Proof.
   induction l as [|z t IH]; cbn; [auto|]. destruct (Nat.eqb y z); [auto|]. intros [->|H]; auto.
 Qed.
@@ -311,7 +315,7 @@ Proof.
     + intros l [].
   - repeat split; try discriminate; auto.
     + apply is_root_spec.
-    + intros x Hx. eapply In_remove_first; eauto.
+    + intros x Hx. eapply In_remove_first_in; eauto.
     + intros l Hl. apply in_seq in Hl. lia.
     + intros x [<-|[]]. apply in_neighbouring in Hin. destruct Hin as [Hp|Hc]; [|exact Hc].
       rewrite Hp, Nat.eqb_refl in Hco. discriminate.
@@ -379,7 +383,7 @@ Proof.
   - destruct (move_fold_all m tmp _ s c0 cs' W Hrid Hiso H) as (A & B & C & D). auto.
 Qed.
 
-(* ==== part 5 ==== *)
+(* ==== effects, part 5 ==== *)
 Lemma node_eq n n' : parent n = parent n' -> children n = children n' -> perm n = perm n' -> shape n = shape n' -> n = n'.
 Proof. destruct n, n'; cbn; intros; subst; reflexivity. Qed.
 
@@ -455,7 +459,7 @@ Proof.
   split; [rewrite V8, C5, B5; reflexivity|rewrite V9, C6, B6; reflexivity].
 Qed.
 
-(* ==== part 6 ==== *)
+(* ==== effects, part 6 ==== *)
 Lemma split_site_parent s a b lid s1 nd0 nbn :
   wf s -> aget a (nodes s) = Some nd0 -> parent nd0 = Some b -> aget b (nodes s) = Some nbn -> aget lid (nodes s) = None ->
   split_site s a b lid = Some s1 ->
@@ -535,7 +539,7 @@ Proof.
   apply (sv_nd _ _ _ _ _ _ _ _ _ _ _ _ _ _ _ _ V).
 Qed.
 
-(* ==== part 7 ==== *)
+(* ==== effects, part 7 ==== *)
 Lemma split_site_child s a b lid s1 nd0 nbn :
   wf s -> aget a (nodes s) = Some nd0 -> In b (children nd0) -> aget b (nodes s) = Some nbn -> aget lid (nodes s) = None ->
   split_site s a b lid = Some s1 ->
@@ -599,7 +603,7 @@ Proof.
     { intros ->. apply P4. left. reflexivity. }
     intros Hkb.
     destruct (in_dec Nat.eq_dec k (remove_first b (children nd0))) as [Hc'|Hc'].
-    - rewrite (P3 Hc'). apply In_remove_first in Hc'.
+    - rewrite (P3 Hc'). apply In_remove_first_in in Hc'.
       destruct (wf_child_parent s a nd0 k W Ea Hc') as (xn & Ex & Hx). unfold id in *. congruence.
     - apply P5; [exact Hc'|]. intros [Hk'|[]]. congruence. }
   split.
@@ -632,7 +636,7 @@ Proof.
   apply (sv_nd _ _ _ _ _ _ _ _ _ _ _ _ _ _ _ _ V).
 Qed.
 
-(* ==== part 8 ==== *)
+(* ==== effects, part 8 ==== *)
 Lemma In_replace_first k x y l : In k (replace_first x y l) -> k = y \/ In k l.
 Proof.
   induction l as [|z t IH]; cbn; [auto|]. destruct (Nat.eqb x z).
@@ -719,7 +723,7 @@ Proof.
     split.
     { cbn [with_parent reset_permutation perm s_transpose axes]. fold (nlegs na).
       rewrite seq_nth by lia. cbn [plus]. rewrite A18. exact A11. }
-    split; [cbn; symmetry; exact Hp|]. cbn. rewrite A3. apply Permutation_refl.
+    split; [cbn; symmetry; exact Hp|]. split; [cbn; rewrite A3; apply Permutation_refl|exact A18].
   - rewrite Gd, C11, B11, A15. intros x Hx. apply in_or_app. left. exact Hx.
   - exact Gk.
   - intros k Ka Kb Hk. assert (Kl : k <> lid) by (intros ->; apply aget_None in Hl; contradiction).
@@ -732,7 +736,7 @@ Proof.
     rewrite (Gk k Ka Kb). reflexivity.
 Qed.
 
-(* ==== part 9 ==== *)
+(* ==== effects, part 9 ==== *)
 Lemma link_update_child s a b lid s' nd0 :
   wf s -> aget a (nodes s) = Some nd0 -> In b (children nd0) -> aget lid (nodes s) = None ->
   link_update s a b lid = Some s' ->
@@ -805,7 +809,7 @@ Proof.
     split.
     { unfold na'. cbn [perm s_transpose axes]. fold (nlegs na).
       rewrite seq_nth by exact A12. cbn [plus]. rewrite A18. exact A11. }
-    split; [unfold na'; cbn; exact A2|]. unfold na'. cbn. symmetry. apply remove_first_perm. exact Hc.
+    split; [unfold na'; cbn; exact A2|]. split; [|exact A18]. unfold na'. cbn. symmetry. apply remove_first_perm. exact Hc.
   - rewrite Gd, C11, B11, A15. intros x Hx. apply in_or_app. left. exact Hx.
   - exact Gk.
   - intros k Ka Kb Hk. assert (Kl : k <> lid) by (intros ->; apply aget_None in Hl; contradiction).
@@ -827,5 +831,865 @@ Proof.
   intros W Ea Hin Hl H. apply in_neighbouring in Hin. destruct Hin as [Hp|Hc].
   - eapply link_update_parent; eauto.
   - eapply link_update_child; eauto.
+Qed.
+
+(* ==== success, part 1 ==== *)
+(* ---- when the list surgery of Node succeeds ------------------------------------------------------------- *)
+Lemma olc_loop_some orig : forall l n, (forall x, In x l -> orig <= snd (fst x)) -> exists n', olc_loop orig n l = Some n'.
+Proof.
+  induction l as [|[[cid leg] val] l IH]; intros n H; cbn [olc_loop]; [eauto|].
+  assert (Hl : orig <= leg) by (apply (H (cid, leg, val)); left; reflexivity).
+  destruct (Nat.ltb_spec leg orig) as [|_]; [lia|]. apply IH. intros x Hx. apply H. right. exact Hx.
+Qed.
+
+Lemma olc_some n d : (forall x, In x d -> nvirt n <= snd x < nlegs n) -> exists n', open_legs_to_children n d = Some n'.
+Proof.
+  intros H. unfold open_legs_to_children.
+  assert (Hf : forallb (fun cl => Nat.ltb (snd cl) (nlegs n)) d = true).
+  { apply forallb_forall. intros x Hx. apply Nat.ltb_lt. apply (H x Hx). }
+  rewrite Hf. apply olc_loop_some. intros x Hx. apply in_map_iff in Hx. destruct Hx as (y & <- & Hy). cbn. apply (H y Hy).
+Qed.
+
+Lemma oltp_some n pid leg : parent n = None -> nvirt n <= leg < nlegs n -> exists n', open_leg_to_parent n pid leg = Some n'.
+Proof.
+  intros Hp Hl. unfold open_leg_to_parent. assert (Hr : is_root n = true) by (apply is_root_spec; exact Hp). rewrite Hr. cbn [negb].
+  assert (Ho : open_leg_ok n leg = true).
+  { unfold open_leg_ok, nopen. rewrite !andb_true_iff, !negb_true_iff. repeat split.
+    - apply Nat.eqb_neq. lia.
+    - apply Nat.ltb_ge. lia.
+    - apply Nat.ltb_lt. lia. }
+  rewrite Ho. cbn [negb]. unfold move. destruct (pop_some leg (perm n) ltac:(unfold nlegs in Hl; lia)) as (x & r & E). rewrite E. eauto.
+Qed.
+
+Lemma pop_n_some {A} k : forall i (l : list A), i + k <= length l ->
+  exists xs r, pop_n k i l = Some (xs, r) /\ length xs = k /\ length r = length l - k.
+Proof.
+  induction k as [|k IH]; intros i l H; cbn.
+  - exists [], l. repeat split. lia.
+  - destruct (pop_some i l ltac:(lia)) as (x & l' & E). rewrite E. pose proof (pop_length _ _ _ _ E) as Hl.
+    destruct (IH i l' ltac:(lia)) as (xs & r & E' & L1 & L2). rewrite E'. exists (x :: xs), r. repeat split; cbn; lia.
+Qed.
+
+Lemma eolr_some n s1 l1 l2 : s1 + l1 + l2 <= nlegs n ->
+  exists n', exchange_open_leg_ranges n s1 l1 (s1 + l1) l2 = Some n'.
+Proof.
+  intros H. unfold exchange_open_leg_ranges.
+  destruct (Nat.ltb_spec (s1 + l1) s1) as [|_]; [lia|].
+  destruct (Nat.ltb_spec (s1 + l1) (s1 + l1)) as [|_]; [lia|].
+  destruct (pop_n_some l2 (s1 + l1) (perm n) ltac:(unfold nlegs in H; lia)) as (v2 & p1 & E1 & _ & L1). rewrite E1.
+  destruct (pop_n_some l1 s1 p1 ltac:(unfold nlegs in H; lia)) as (v1 & p2 & E2 & _). rewrite E2. eauto.
+Qed.
+
+Lemma new_node_nlegs shp : nlegs (new_node shp) = length shp.
+Proof. unfold nlegs. cbn. apply seq_length. Qed.
+Lemma new_node_nvirt shp : nvirt (new_node shp) = 0.
+Proof. reflexivity. Qed.
+
+Lemma olc_loop_nlegs orig : forall l n n', olc_loop orig n l = Some n' ->
+  (forall x, In x l -> In (snd x) (perm n)) -> length (perm n') = length (perm n).
+Proof.
+  induction l as [|[[cid leg] val] l IH]; intros n n' H Hin; cbn [olc_loop] in H; [injection H as <-; reflexivity|].
+  destruct (Nat.ltb leg orig); [discriminate|].
+  assert (Hv : In val (perm n)) by (apply (Hin (cid, leg, val)); left; reflexivity).
+  assert (Hperm : Permutation (insert (nvirt n) val (remove_first val (perm n))) (perm n)).
+  { rewrite insert_perm. symmetry. apply remove_first_perm. exact Hv. }
+  rewrite (IH _ _ H).
+  - cbn [perm]. apply (Permutation_length Hperm).
+  - intros x Hx. cbn [perm]. apply (Permutation_in _ (Permutation_sym Hperm)). apply Hin. right. exact Hx.
+Qed.
+
+Lemma olc_nlegs n d n' : open_legs_to_children n d = Some n' -> nlegs n' = nlegs n.
+Proof.
+  unfold open_legs_to_children. destruct (forallb _ d) eqn:Hf; [|discriminate]. intros H. unfold nlegs.
+  apply (olc_loop_nlegs _ _ _ _ H). intros x Hx. apply in_map_iff in Hx. destruct Hx as (y & <- & Hy). cbn [snd].
+  apply nth_In. rewrite forallb_forall in Hf. apply Nat.ltb_lt. apply (Hf y Hy).
+Qed.
+
+(* ==== success, part 2 ==== *)
+Lemma neighbour_index_some n c : In c (neighbouring_nodes n) -> exists i, neighbour_index n c = Some i.
+Proof.
+  unfold neighbour_index, neighbouring_nodes. destruct (parent n) as [p|].
+  - destruct (Nat.eqb_spec c p); [eauto|]. intros [->|Hin]; [congruence|].
+    apply index_of_In in Hin. destruct Hin as [i ->]. cbn. eauto.
+  - intros Hin. apply index_of_In in Hin. exact Hin.
+Qed.
+
+Lemma access_some s n nd : wf s -> aget n (nodes s) = Some nd -> exists s' nd' t', access s n = Some (s', nd', t').
+Proof.
+  intros W E. unfold access. rewrite E, (wf_tens s n nd W E). eauto.
+Qed.
+
+(* create_contracted_node succeeds on two adjacent well-formed nodes *)
+Lemma ccn_some pn cn c first (shp : list nat) :
+  nvirt pn <= nlegs pn -> nvirt cn <= nlegs cn -> In c (children pn) -> NoDup (children pn) -> parent cn <> None ->
+  length shp = (nlegs pn - 1) + (nlegs cn - 1) ->
+  exists nn, create_contracted_node shp pn cn c first = Some nn.
+Proof.
+  intros Vp Vc Hin Hnd Hpc Hlen. unfold create_contracted_node.
+  assert (Hchp : length (children pn) = S (length (remove_first c (children pn)))).
+  { pose proof (Permutation_length (remove_first_perm c (children pn) Hin)) as E. cbn in E. exact E. }
+  assert (Hnvp : nvirt pn = nparents pn + S (length (remove_first c (children pn)))) by (unfold nvirt; rewrite Hchp; reflexivity).
+  assert (Hnvc : nvirt cn = 1 + length (children cn)).
+  { unfold nvirt, nparents. destruct (parent cn); [reflexivity|congruence]. }
+  set (n0 := new_node shp).
+  assert (L0 : nlegs n0 = length shp) by apply new_node_nlegs.
+  assert (R1 : exists n1, (match parent pn with Some pp => open_leg_to_parent n0 pp 0 | None => Some n0 end) = Some n1 /\
+                          nlegs n1 = length shp /\ nvirt n1 = nparents pn /\ node_wf n1).
+  { destruct (parent pn) as [pp|] eqn:Hpp.
+    - destruct (oltp_some n0 pp 0 eq_refl) as [n1 E1].
+      { rewrite L0. cbn. unfold nparents in Hnvp. rewrite Hpp in Hnvp. nlia. }
+      exists n1. split; [exact E1|]. destruct (open_leg_to_parent_wf _ _ _ _ (new_node_wf shp) E1) as (W1 & P1 & C1 & _ & Lp & _).
+      split; [unfold nlegs; rewrite (Permutation_length Lp); apply L0|].
+      split; [unfold nvirt, nparents; rewrite P1, C1; cbn; rewrite Hpp; reflexivity|exact W1].
+    - exists n0. split; [reflexivity|]. split; [exact L0|]. split; [unfold nparents; rewrite Hpp; reflexivity|apply new_node_wf]. }
+  destruct R1 as (n1 & -> & L1 & V1 & W1).
+  set (pch := remove_first c (children pn)) in *.
+  set (pd := enum_from (nparents pn) pch). set (cd := enum_from (nlegs pn - 1) (children cn)).
+  set (d := if first then pd ++ cd else cd ++ pd).
+  assert (Hd : forall x, In x d -> nvirt n1 <= snd x < nlegs n1).
+  { assert (Hpd : forall x, In x pd -> nvirt n1 <= snd x < nlegs n1).
+    { intros x Hx. assert (Hs : In (snd x) (map snd pd)) by (apply in_map; exact Hx).
+      unfold pd in Hs. rewrite enum_from_snd in Hs. apply in_seq in Hs. nlia. }
+    assert (Hcd : forall x, In x cd -> nvirt n1 <= snd x < nlegs n1).
+    { intros x Hx. assert (Hs : In (snd x) (map snd cd)) by (apply in_map; exact Hx).
+      unfold cd in Hs. rewrite enum_from_snd in Hs. apply in_seq in Hs. nlia. }
+    intros x Hx. unfold d in Hx. destruct first; apply in_app_or in Hx; destruct Hx; auto. }
+  destruct (olc_some n1 d Hd) as [n2 E2]. fold pch. fold pd. fold cd. fold d. rewrite E2.
+  destruct first; [eauto|].
+  assert (HND : NoDup (map snd d)).
+  { unfold d, cd, pd. rewrite map_app, !enum_from_snd. apply NoDup_app_iff. split; [apply seq_NoDup|]. split; [apply seq_NoDup|].
+    intros x Hx Hy. apply in_seq in Hx, Hy. nlia. }
+  destruct (open_legs_to_children_spec n1 d n2 W1 HND E2) as (P2 & _ & C2 & Lp2 & _).
+  assert (V2 : nvirt n2 = nparents pn + (length (children cn) + length pch)).
+  { unfold nvirt, nparents. rewrite P2, C2. unfold d, cd, pd. rewrite map_app, !enum_from_fst, !app_length.
+    unfold nvirt, nparents in V1. destruct (parent n1); destruct (parent pn); cbn in *; nlia. }
+  assert (L2 : nlegs n2 = length shp) by (rewrite (olc_nlegs _ _ _ E2); exact L1).
+  apply eolr_some. rewrite L2, V2, Hlen. unfold nopen. fold pch in Hnvp. nlia.
+Qed.
+
+(* contract_nodes succeeds on two adjacent nodes of a well-formed store (the new identifier is one of the two) *)
+Lemma contract_nodes_some s x y new nx ny :
+  wf s -> aget x (nodes s) = Some nx -> aget y (nodes s) = Some ny ->
+  parent ny = Some x \/ parent nx = Some y -> new = x \/ new = y ->
+  exists s', contract_nodes s x y new = Some s'.
+Proof.
+  intros W Ex Ey Hadj Hnew. unfold contract_nodes.
+  assert (Hdp : exists p c pn0 cn0, determine_parentage s x y = Some (p, c) /\ ((p = x /\ c = y) \/ (p = y /\ c = x)) /\
+                  aget p (nodes s) = Some pn0 /\ aget c (nodes s) = Some cn0 /\ parent cn0 = Some p).
+  { unfold determine_parentage. rewrite Ex, Ey.
+    destruct (parent ny) as [q|] eqn:Py.
+    - destruct (Nat.eqb_spec q x) as [->|Hq].
+      + exists x, y, nx, ny. auto.
+      + destruct Hadj as [Hc|Hc]; [congruence|]. rewrite Hc, Nat.eqb_refl. exists y, x, ny, nx. auto.
+    - destruct Hadj as [Hc|Hc]; [congruence|]. rewrite Hc, Nat.eqb_refl. exists y, x, ny, nx. auto. }
+  destruct Hdp as (p & c & pn0 & cn0 & -> & Hpc & Ep & Ec & Hpar).
+  assert (Hne : p <> c) by (intros ->; apply (wf_not_self_parent s c cn0 W Ec Hpar)).
+  destruct (access_some s p pn0 W Ep) as (s1 & pn & pt & A1). rewrite A1.
+  pose proof (access_preserves_wf s p s1 pn pt W A1) as W1.
+  destruct (access_result _ _ _ _ _ A1) as (B1 & B2 & B3 & B4 & B5 & B6 & B7 & B8 & (pn0' & B9 & B10 & B11)).
+  rewrite Ep in B9. injection B9 as <-.
+  destruct (B4 c (not_eq_sym Hne)) as [B4n B4t].
+  assert (Ec1 : aget c (nodes s1) = Some cn0) by (rewrite B4n; exact Ec).
+  destruct (access_some s1 c cn0 W1 Ec1) as (s2 & cn & ct & A2). rewrite A2.
+  pose proof (access_preserves_wf s1 c s2 cn ct W1 A2) as W2.
+  destruct (access_result _ _ _ _ _ A2) as (C1 & C2 & C3 & C4 & C5 & C6 & C7 & C8 & (cn0' & C9 & C10 & C11)).
+  rewrite Ec1 in C9. injection C9 as <-.
+  destruct (C4 p Hne) as [C4n C4t].
+  assert (Ep2 : aget p (nodes s2) = Some pn) by (rewrite C4n; exact B1).
+  assert (Pc2 : parent cn = Some p) by (rewrite C10; exact Hpar).
+  (* the leg of the parent toward the child, and the shared wire *)
+  destruct (ni_par _ _ _ (wf_node s2 W2 c cn C1) p Pc2) as (pn' & ax & Ep' & Hcin & Hax & Hw).
+  rewrite Ep2 in Ep'. injection Ep' as <-. rewrite Hax.
+  assert (Lp : length (axes pt) = nlegs pn).
+  { rewrite <- (wf_axes_length s2 p pn W2 Ep2). rewrite (tens_aget s2 p pt); [reflexivity|]. rewrite C4t. exact B2. }
+
+  assert (Lc : length (axes ct) = nlegs cn).
+  { rewrite <- (wf_axes_length s2 c cn W2 C1). rewrite (tens_aget s2 c ct C2). reflexivity. }
+  pose proof (ni_virt _ _ _ (wf_node s2 W2 p pn Ep2)) as Vp. pose proof (ni_virt _ _ _ (wf_node s2 W2 c cn C1)) as Vc.
+  pose proof (neighbour_index_bound _ _ _ Hax) as Hab.
+  assert (Hvc1 : 1 <= nvirt cn) by (unfold nvirt, nparents; rewrite Pc2; nlia).
+  destruct (pop_some ax (axes pt) ltac:(unfold id, wire in *; lia)) as (wa & ra & Pa).
+  destruct (pop_some 0 (axes ct) ltac:(unfold id, wire in *; lia)) as (wb & rb & Pb).
+  assert (Tp : tens s2 p = pt) by (apply tens_aget; rewrite C4t; exact B2).
+  assert (Tc : tens s2 c = ct) by (apply tens_aget; exact C2).
+  assert (Hlaxp : lax s2 p pn = axes pt) by (rewrite (lax_identity s2 p pn W2 Ep2 B3), Tp; reflexivity).
+  assert (Hlaxc : lax s2 c cn = axes ct) by (rewrite (lax_identity s2 c cn W2 C1 C3), Tc; reflexivity).
+  assert (Hwab : wa = wb).
+  { rewrite <- (pop_nth _ _ _ _ 0 Pa), <- (pop_nth _ _ _ _ 0 Pb).
+    rewrite <- Hlaxp, <- Hlaxc. symmetry. exact Hw. }
+  unfold s_tensordot. rewrite Pa, Pb, Hwab, Nat.eqb_refl.
+  cbn [axes].
+  destruct (ccn_some pn cn c (Nat.eqb p x) (map (wdim s) (ra ++ rb)) Vp Vc Hcin (ni_chnd _ _ _ (wf_node s2 W2 p pn Ep2)) ltac:(congruence))
+    as [nn Enn].
+  { rewrite map_length, app_length. pose proof (pop_length _ _ _ _ Pa). pose proof (pop_length _ _ _ _ Pb). nlia. }
+  rewrite Enn.
+  set (s3 := upd_tensors s2 _).
+  assert (N3 : nodes s3 = nodes s2) by reflexivity.
+  destruct (Nat.eq_dec new p) as [->|Hnp].
+  - rewrite rnin_same.
+    destruct (replace_node_in_neighbours_some s3 p c true cn (fun e => Hne e)) as [s5 E5].
+    + rewrite N3. exact C1.
+    + rewrite Pc2. left. reflexivity.
+    + rewrite E5. eauto.
+  - assert (new = c) as -> by (destruct Hpc as [[-> ->]|[-> ->]]; destruct Hnew; congruence).
+    destruct (replace_node_in_neighbours_some s3 c p true pn (fun e => Hne (eq_sym e))) as [s4 E4].
+    + rewrite N3. exact Ep2.
+    + destruct (parent pn) as [pp|] eqn:Ppp; [|exact I]. right. rewrite N3. apply (wf_parent_child s2 p pn pp W2 Ep2 Ppp).
+    + rewrite E4, rnin_same. eauto.
+Qed.
+
+(* ==== success, part 3 ==== *)
+Lemma build_qr_reset nd0 b : build_qr_leg_specs (reset_permutation nd0) b = build_qr_leg_specs nd0 b.
+Proof.
+  unfold build_qr_leg_specs, reset_permutation, nvirt, nopen, nlegs, nparents, is_root. cbn. rewrite seq_length. reflexivity.
+Qed.
+
+Lemma ris_nil l new old : replace_in_some_neighbours l new old [] = Some l.
+Proof. reflexivity. Qed.
+
+(* replacing an identifier by itself in the records of true neighbours changes nothing *)
+Lemma ris_same_some : forall ns l n,
+  (forall x, In x ns -> exists xn, aget x l = Some xn /\ (parent xn = Some n \/ In n (children xn))) ->
+  replace_in_some_neighbours l n n ns = Some l.
+Proof.
+  unfold replace_in_some_neighbours. induction ns as [|x ns IH]; intros l n H; [reflexivity|]. cbn [fold_left].
+  destruct (H x (or_introl eq_refl)) as (xn & Ex & Hx). rewrite Ex.
+  assert (Hr : replace_neighbour xn n n = Some xn).
+  { unfold replace_neighbour. destruct (parent xn) as [p|] eqn:Hp.
+    - destruct (Nat.eqb_spec p n) as [->|Hpn].
+      + f_equal. destruct xn; cbn in *; subst; reflexivity.
+      + destruct Hx as [Hx|Hx]; [congruence|]. apply memb_In in Hx. rewrite Hx, replace_first_same. f_equal. destruct xn; reflexivity.
+    - destruct Hx as [Hx|Hx]; [congruence|]. apply memb_In in Hx. rewrite Hx, replace_first_same. f_equal. destruct xn; reflexivity. }
+  rewrite Hr, (aset_same_id x xn l Ex). apply IH. intros y Hy. apply H. right. exact Hy.
+Qed.
+
+Lemma ris_single_some l new old x xn :
+  aget x l = Some xn -> (parent xn = Some old \/ In old (children xn)) ->
+  exists l', replace_in_some_neighbours l new old [x] = Some l'.
+Proof.
+  intros Ex Hx. unfold replace_in_some_neighbours. cbn [fold_left]. rewrite Ex.
+  assert (Hr : exists xn', replace_neighbour xn old new = Some xn').
+  { unfold replace_neighbour. destruct (parent xn) as [p|] eqn:Hp.
+    - destruct (Nat.eqb_spec p old) as [->|Hpn]; [eauto|].
+      destruct Hx as [Hx|Hx]; [congruence|]. apply memb_In in Hx. rewrite Hx. eauto.
+    - destruct Hx as [Hx|Hx]; [congruence|]. apply memb_In in Hx. rewrite Hx. eauto. }
+  destruct Hr as [xn' ->]. eauto.
+Qed.
+
+Lemma split_qr_some s a b lid m nd0 :
+  wf s -> aget a (nodes s) = Some nd0 -> In b (neighbouring_nodes nd0) -> aget lid (nodes s) = None ->
+  exists s1, split_nodes s a (fst (build_qr_leg_specs nd0 b)) (snd (build_qr_leg_specs nd0 b)) a lid 0 m 0 = Some s1.
+Proof.
+  intros W Ea Hin Hl. rewrite split_nodes_body.
+  destruct (access_some s a nd0 W Ea) as (sa & nd & t & Ha). rewrite Ha.
+  destruct (split_access_facts _ _ _ _ _ W Ha) as (nd0' & t0 & En0 & Et0 & End & Etr & Wa & En & Et & Hid & Hk & Hlax & Ht0).
+  rewrite Ea in En0. injection En0 as <-.
+  assert (Nal : a <> lid) by (intros ->; congruence).
+  pose proof (wf_node_wf sa a nd Wa En) as Wnd.
+  assert (Hin' : In b (neighbouring_nodes nd)) by (rewrite End; exact Hin).
+  assert (Hndn : NoDup (neighbouring_nodes nd)) by (apply (ts_neighbours_nodup _ _ _ (wf_tstruct sa Wa) En)).
+  destruct (build_qr_leg_specs nd0 b) as [q r] eqn:Eqr. cbn [fst snd].
+  assert (Eqr' : build_qr_leg_specs nd b = (q, r)) by (rewrite End, build_qr_reset; exact Eqr).
+  destruct (build_qr_leg_specs_partition nd b q r Wnd Hndn Hin' Eqr') as (leg & ql & Hleg & Fq & Fr & Hperm & Hql).
+  rewrite Fq, Fr. unfold split_body. rewrite Fq, Fr.
+  assert (Hlen : nlegs nd = length (axes t)) by (unfold nlegs; rewrite Hid, seq_length; reflexivity).
+  assert (Hp1 : is_perm_of_seq (ql ++ [leg]) && Nat.eqb (length (ql ++ [leg])) (length (axes t)) = true).
+  { apply andb_true_iff. pose proof (Permutation_length Hperm) as HL. rewrite seq_length in HL. split.
+    - apply is_perm_of_seq_spec. rewrite HL. exact Hperm.
+    - apply Nat.eqb_eq. rewrite HL. exact Hlen. }
+  rewrite Hp1. cbn [negb]. rewrite (eqb_false a lid Nal).
+  replace (match m with Keep => match [leg] with [] => true | _ :: _ => false end | _ => false end) with false by (destruct m; reflexivity).
+  cbv zeta.
+  set (s6 := sp_s6 sa t ql [leg] a lid 0 m _).
+  set (shpO := map (wdim s6) (axes (sp_ot sa t ql))). set (shpI := map (wdim s6) (axes (sp_it sa t [leg]))).
+  assert (LO : length shpO = nlegs nd).
+  { unfold shpO, sp_ot. cbn [axes]. rewrite map_length, app_length, permute_length. cbn.
+    pose proof (Permutation_length Hperm) as HL. rewrite seq_length, app_length in HL. cbn in HL. nlia. }
+  assert (LI : length shpI = 2) by (unfold shpI, sp_it; cbn; reflexivity).
+  pose proof (ni_virt _ _ _ (wf_node sa Wa a nd En)) as Vnd.
+  assert (Gother : forall x on2 in2, x <> a -> x <> lid ->
+            aget x (aset lid in2 (aset a on2 (nodes sa))) = aget x (nodes sa)).
+  { intros x on2 in2 H1 H2. rewrite !aget_aset, (eqb_false x lid H2), (eqb_false x a H1). reflexivity. }
+  assert (Hlsa : aget lid (nodes sa) = None).
+  { apply aget_None. rewrite Hk. apply aget_None. exact Hl. }
+  unfold build_qr_leg_specs in Eqr'.
+  destruct (match parent nd with Some p => Nat.eqb p b | None => false end) eqn:Hco; injection Eqr' as <- <-.
+  - (* the neighbour is the parent *)
+    destruct (parent nd) as [p|] eqn:Hp; [|discriminate]. apply Nat.eqb_eq in Hco. subst p.
+    assert (Hr : is_root nd = false) by (unfold is_root; rewrite Hp; reflexivity).
+    cbn [ls_root ls_parent ls_children ls_open andb orb negb]. rewrite ?Hr. cbn [andb orb negb].
+    unfold sp_in1, sp_out1, sp_in_children, sp_out_children, sp_in_above, sp_some. cbn [ls_root ls_parent ls_children ls_open orb app]. rewrite ?Hr.
+    destruct (oltp_some (new_node shpI) b 1 eq_refl ltac:(rewrite new_node_nlegs, LI; cbn; lia)) as [in1 Ein1]. rewrite Ein1.
+    destruct (open_leg_to_parent_wf _ _ _ _ (new_node_wf shpI) Ein1) as (Win1 & Pin1 & Cin1 & _ & Lin1 & _).
+    assert (Nin1 : nlegs in1 = 2) by (unfold nlegs; rewrite (Permutation_length Lin1); fold (nlegs (new_node shpI)); rewrite new_node_nlegs; exact LI).
+    assert (Vin1 : nvirt in1 = 1) by (unfold nvirt, nparents; rewrite Pin1, Cin1; reflexivity).
+    match goal with |- context [open_legs_to_children in1 ?d] => destruct (olc_some in1 d) as [in2 Ein2] end;
+      [intros x [<-|[]]; cbn; lia|]. rewrite Ein2.
+    destruct (oltp_some (new_node shpO) lid (nlegs (new_node shpO) - 1) eq_refl) as [on1 Eon1].
+    { rewrite new_node_nlegs, LO. cbn. unfold nvirt, nparents in Vnd. rewrite Hp in Vnd. nlia. }
+    rewrite Eon1.
+    destruct (open_leg_to_parent_wf _ _ _ _ (new_node_wf shpO) Eon1) as (Won1 & Pon1 & Con1 & _ & Lon1 & _).
+    assert (Non1 : nlegs on1 = nlegs nd) by (unfold nlegs; rewrite (Permutation_length Lon1); fold (nlegs (new_node shpO)); rewrite new_node_nlegs; exact LO).
+    assert (Von1 : nvirt on1 = 1) by (unfold nvirt, nparents; rewrite Pon1, Con1; reflexivity).
+    destruct (olc_some on1 (enum_from 1 (children nd))) as [on2 Eon2].
+    { intros x Hx. assert (Hs : In (snd x) (map snd (enum_from 1 (children nd)))) by (apply in_map; exact Hx).
+      rewrite enum_from_snd in Hs. apply in_seq in Hs. unfold nvirt, nparents in Vnd. rewrite Hp in Vnd. nlia. }
+    rewrite Eon2. unfold find_all_neighbour_ids. cbn [ls_parent ls_children app].
+    rewrite ris_same_some.
+    + destruct (wf_parent_child sa a nd b Wa En Hp) as (nbn & Eb & Hab).
+      assert (Nba : b <> a) by (intros ->; exact (wf_not_self_parent sa a nd Wa En Hp)).
+      assert (Nbl : b <> lid) by (intros ->; congruence).
+      cbv beta iota.
+      match goal with |- context [replace_in_some_neighbours ?l ?x ?y ?z] => destruct (ris_single_some l x y b nbn) as [l2 El2] end.
+      * rewrite (Gother b on2 in2 Nba Nbl). exact Eb.
+      * right. exact Hab.
+      * unfold id in *. rewrite El2. eauto.
+    + intros x Hx. destruct (wf_child_parent sa a nd x Wa En Hx) as (xn & Ex & Hpx). exists xn. split; [|left; exact Hpx].
+      rewrite Gother; [exact Ex| |].
+      * intros ->. exact (wf_not_self_parent sa a xn Wa Ex Hpx).
+      * intros ->. congruence.
+  - (* the neighbour is a child *)
+    assert (Hpn : parent nd <> Some b).
+    { destruct (parent nd) as [p|]; [|discriminate]. apply Nat.eqb_neq in Hco. congruence. }
+    assert (Hc : In b (children nd)).
+    { apply in_neighbouring in Hin'. destruct Hin' as [Hp'|Hc']; [congruence|exact Hc']. }
+    cbn [ls_root ls_parent ls_children ls_open]. cbn [andb orb negb].
+    unfold sp_in1, sp_out1, sp_in_children, sp_out_children, sp_in_above, sp_some. cbn [ls_root ls_parent ls_children ls_open orb app].
+    replace (negb (is_root nd) && match parent nd with Some _ => false | None => true end) with false
+      by (unfold is_root; destruct (parent nd); reflexivity).
+    destruct (oltp_some (new_node shpI) a 0 eq_refl ltac:(rewrite new_node_nlegs, LI; cbn; lia)) as [in1 Ein1]. rewrite Ein1.
+    destruct (open_leg_to_parent_wf _ _ _ _ (new_node_wf shpI) Ein1) as (Win1 & Pin1 & Cin1 & _ & Lin1 & _).
+    assert (Nin1 : nlegs in1 = 2) by (unfold nlegs; rewrite (Permutation_length Lin1); fold (nlegs (new_node shpI)); rewrite new_node_nlegs; exact LI).
+    assert (Vin1 : nvirt in1 = 1) by (unfold nvirt, nparents; rewrite Pin1, Cin1; reflexivity).
+    match goal with |- context [open_legs_to_children in1 ?d] => destruct (olc_some in1 d) as [in2 Ein2] end;
+      [intros x [<-|[]]; cbn; lia|]. rewrite Ein2.
+    assert (Hch : length (children nd) = S (length (remove_first b (children nd)))).
+    { pose proof (Permutation_length (remove_first_perm b (children nd) Hc)) as E. cbn in E. exact E. }
+    assert (Hon1 : exists on1, (match parent nd with
+                                | Some op => open_leg_to_parent (new_node shpO) op 0
+                                | None => if is_root nd then Some (new_node shpO) else open_leg_to_parent (new_node shpO) lid (nlegs (new_node shpO) - 1)
+                                end) = Some on1 /\ nlegs on1 = nlegs nd /\ nvirt on1 = nparents nd).
+    { destruct (parent nd) as [pp|] eqn:Hpp.
+      - destruct (oltp_some (new_node shpO) pp 0 eq_refl) as [on1 Eon1].
+        { rewrite new_node_nlegs, LO. cbn. unfold nvirt, nparents in Vnd. rewrite Hpp in Vnd. nlia. }
+        exists on1. split; [exact Eon1|].
+        destruct (open_leg_to_parent_wf _ _ _ _ (new_node_wf shpO) Eon1) as (Won1 & Pon1 & Con1 & _ & Lon1 & _).
+        split; [unfold nlegs; rewrite (Permutation_length Lon1); fold (nlegs (new_node shpO)); rewrite new_node_nlegs; exact LO|].
+        unfold nvirt, nparents. rewrite Pon1, Con1, Hpp. reflexivity.
+      - unfold is_root. rewrite Hpp. exists (new_node shpO). split; [reflexivity|]. split; [rewrite new_node_nlegs; exact LO|].
+        unfold nparents. rewrite Hpp. reflexivity. }
+    destruct Hon1 as (on1 & -> & Non1 & Von1).
+    assert (Hnp : (if is_root nd then 0 else 1) = nparents nd) by (unfold is_root, nparents; destruct (parent nd); reflexivity).
+    rewrite Hnp.
+    match goal with |- context [open_legs_to_children on1 ?d] => destruct (olc_some on1 d) as [on2 Eon2] end.
+    { unfold nvirt in Vnd. intros x [<-|Hx]; [cbn; nlia|].
+      assert (Hs : In (snd x) (map snd (enum_from (nparents nd) (remove_first b (children nd))))) by (apply in_map; exact Hx).
+      rewrite enum_from_snd in Hs. apply in_seq in Hs. nlia. }
+    rewrite Eon2. unfold find_all_neighbour_ids. cbn [ls_parent ls_children app].
+    rewrite ris_same_some.
+    + destruct (wf_child_parent sa a nd b Wa En Hc) as (nbn & Eb & Hpb).
+      assert (Nba : b <> a) by (intros ->; exact (wf_not_self_parent sa a nbn Wa Eb Hpb)).
+      assert (Nbl : b <> lid) by (intros ->; congruence).
+      cbv beta iota.
+      match goal with |- context [replace_in_some_neighbours ?l ?x ?y ?z] => destruct (ris_single_some l x y b nbn) as [l2 El2] end.
+      * rewrite (Gother b on2 in2 Nba Nbl). exact Eb.
+      * left. exact Hpb.
+      * unfold id in *. rewrite El2. eauto.
+    + intros x Hx. apply in_app_or in Hx. destruct Hx as [Hx|Hx].
+      * destruct (parent nd) as [pp|] eqn:Hpp; [|destruct Hx]. destruct Hx as [<-|[]].
+        destruct (wf_parent_child sa a nd pp Wa En Hpp) as (ppn & Epp & Happ). exists ppn. split; [|right; exact Happ].
+        rewrite Gother; [exact Epp| |].
+        -- intros ->. exact (wf_not_self_parent sa a nd Wa En Hpp).
+        -- intros ->. congruence.
+      * apply In_remove_first_in in Hx. destruct (wf_child_parent sa a nd x Wa En Hx) as (xn & Ex & Hpx). exists xn. split; [|left; exact Hpx].
+        rewrite Gother; [exact Ex| |].
+        -- intros ->. exact (wf_not_self_parent sa a xn Wa Ex Hpx).
+        -- intros ->. congruence.
+Qed.
+
+(* ==== success, part 4 ==== *)
+Lemma split_site_some s a b lid nd0 :
+  wf s -> aget a (nodes s) = Some nd0 -> In b (neighbouring_nodes nd0) -> aget lid (nodes s) = None ->
+  exists s1, split_site s a b lid = Some s1.
+Proof.
+  intros W Ea Hin Hl. unfold split_site. rewrite Ea.
+  destruct (split_qr_some s a b lid Keep nd0 W Ea Hin Hl) as [s1 E]. destruct (build_qr_leg_specs nd0 b). eauto.
+Qed.
+
+Lemma acc_some s n : wf s -> amem n (nodes s) = true -> exists s', acc s n = Some s'.
+Proof.
+  intros W H. apply amem_aget in H. destruct H as [nd E]. destruct (access_some s n nd W E) as (s' & nd' & t' & A).
+  unfold acc. rewrite A. eauto.
+Qed.
+
+Lemma site_update_some s n : wf s -> amem n (nodes s) = true -> exists s', site_update s n = Some s'.
+Proof.
+  intros W H. destruct (acc_some s n W H) as [s1 E]. unfold site_update. rewrite E.
+  destruct (acc_facts _ _ _ E) as (nd & t & _ & _ & _ & Et & _). unfold set_fresh. rewrite Et. cbn. eauto.
+Qed.
+
+(* after the split the link node and the neighbour are adjacent *)
+Lemma split_site_adjacent s a b lid s1 nd0 :
+  wf s -> aget a (nodes s) = Some nd0 -> In b (neighbouring_nodes nd0) -> aget lid (nodes s) = None ->
+  split_site s a b lid = Some s1 ->
+  exists nl nb1, aget lid (nodes s1) = Some nl /\ aget b (nodes s1) = Some nb1 /\ aget a (nodes s1) <> None /\
+                 (parent nl = Some b \/ parent nb1 = Some lid) /\ a <> lid /\ b <> lid /\ a <> b.
+Proof.
+  intros W Ea Hin Hl H. assert (Nal : a <> lid) by (intros ->; congruence).
+  apply in_neighbouring in Hin. destruct Hin as [Hp|Hc].
+  - destruct (wf_parent_child s a nd0 b W Ea Hp) as (nbn & Eb & Hab).
+    destruct (split_site_parent s a b lid s1 nd0 nbn W Ea Hp Eb Hl H)
+      as (na & nl & tq & tr & df & A1 & A2 & A3 & A4 & A5 & A6 & A7 & _).
+    exists nl, (with_children nbn (replace_first a lid (children nbn))). repeat split; auto; try congruence.
+    intros ->. exact (wf_not_self_parent s b nd0 W Ea Hp).
+  - destruct (wf_child_parent s a nd0 b W Ea Hc) as (nbn & Eb & Hpb).
+    destruct (split_site_child s a b lid s1 nd0 nbn W Ea Hc Eb Hl H)
+      as (na & nl & tq & tr & df & A1 & A2 & A3 & A4 & A5 & A6 & A7 & _).
+    exists nl, (with_parent nbn (Some lid)). repeat split; auto; try congruence.
+    intros ->. exact (wf_not_self_parent s b nbn W Eb Hpb).
+Qed.
+
+Lemma qr_keep_split s a b tmp : qr_to_neighbour s a b Keep tmp =
+  match split_site s a b tmp with Some s1 => contract_nodes s1 b tmp b | None => None end.
+Proof.
+  unfold qr_to_neighbour, split_site. destruct (aget a (nodes s)) as [nd|]; [|reflexivity].
+  destruct (build_qr_leg_specs nd b). reflexivity.
+Qed.
+
+Lemma qr_to_neighbour_some s a b tmp nd0 :
+  wf s -> aget a (nodes s) = Some nd0 -> In b (neighbouring_nodes nd0) -> aget tmp (nodes s) = None ->
+  exists s', qr_to_neighbour s a b Keep tmp = Some s'.
+Proof.
+  intros W Ea Hin Hl. rewrite qr_keep_split. destruct (split_site_some s a b tmp nd0 W Ea Hin Hl) as [s1 E1]. rewrite E1.
+  pose proof (split_site_wf _ _ _ _ _ _ W Ea Hin Hl E1) as W1.
+  destruct (split_site_adjacent s a b tmp s1 nd0 W Ea Hin Hl E1) as (nl & nb1 & El & Eb & _ & Hadj & _).
+  apply (contract_nodes_some s1 b tmp b nb1 nl W1 Eb El); [tauto|left; reflexivity].
+Qed.
+
+Lemma link_update_some s a b lid nd0 :
+  wf s -> aget a (nodes s) = Some nd0 -> In b (neighbouring_nodes nd0) -> aget lid (nodes s) = None ->
+  exists s', link_update s a b lid = Some s'.
+Proof.
+  intros W Ea Hin Hl. unfold link_update. destruct (split_site_some s a b lid nd0 W Ea Hin Hl) as [s1 E1]. rewrite E1.
+  pose proof (split_site_wf _ _ _ _ _ _ W Ea Hin Hl E1) as W1.
+  destruct (split_site_adjacent s a b lid s1 nd0 W Ea Hin Hl E1) as (nl & nb1 & El & Eb & Ea1 & Hadj & Nal & Nbl & Nab).
+  destruct (acc_some s1 a W1) as [s2 E2].
+  { unfold amem. destruct (aget a (nodes s1)); [reflexivity|congruence]. }
+  rewrite E2. pose proof (acc_wf _ _ _ W1 E2) as W2.
+  destruct (acc_facts _ _ _ E2) as (na & tq & B1 & B2 & B3 & B4 & B5 & _).
+  destruct (B5 lid (not_eq_sym Nal)) as [B5l _]. destruct (B5 b (not_eq_sym Nab)) as [B5b _].
+  destruct (site_update_some s2 lid W2) as [s3 E3].
+  { apply amem_aget. exists nl. rewrite B5l. exact El. }
+  rewrite E3. pose proof (site_update_wf _ _ _ W2 E3) as W3.
+  destruct (site_update_facts _ _ _ E3) as (nl' & tr' & C1 & C2 & C3 & C4 & C5 & _).
+  rewrite B5l, El in C1. injection C1 as <-.
+  destruct (C5 b Nbl) as [C5b _].
+  apply (contract_nodes_some s3 lid b b (reset_permutation nl) nb1 W3 C3); [rewrite C5b, B5b; exact Eb| |right; reflexivity].
+  cbn. tauto.
+Qed.
+
+(* move_orthogonalization_center succeeds between any two nodes of a well-formed tree *)
+Lemma move_fold_some tmp : forall l s cur,
+  wf s -> aget tmp (nodes s) = None -> iso_check (s, Some cur) = true -> walk s (cur :: l) ->
+  exists cs', fold_left (move_step Keep tmp) l (Some (s, Some cur)) = Some cs'.
+Proof.
+  induction l as [|nb l IH]; intros s cur W Ht Hiso Hw; cbn [fold_left]; [eauto|].
+  cbn [move_step]. destruct Hw as [(nd & Ec & Hin) Hw].
+  destruct (qr_to_neighbour_some s cur nb tmp nd W Ec Hin Ht) as [s2 E]. rewrite E.
+  destruct (move_step_iso _ _ _ _ _ _ (wf_tstruct s W) Ht Hiso E) as (I2 & T2 & R2 & S2).
+  pose proof (qr_to_neighbour_wf _ _ _ _ _ _ W Ht E) as W2.
+  apply (IH s2 nb W2 R2 I2).
+  (* the rest of the walk is a walk in the new store: same tree *)
+  clear -Hw S2 T2. revert nb Hw. induction l as [|y l IHl]; intros nb Hw; [exact I|].
+  destruct Hw as [(n & En & Hy) Hw]. split; [|apply IHl; exact Hw].
+  destruct (same_tree_some _ _ _ _ S2 En) as (n' & En' & _). exists n'. split; [exact En'|].
+  apply (Permutation_in _ (same_tree_neighbours _ _ _ _ _ S2 En En')). exact Hy.
+Qed.
+
+Lemma move_center_some s c0 c tmp :
+  wf s -> aget tmp (nodes s) = None -> iso_check (s, Some c0) = true ->
+  amem c0 (nodes s) = true -> amem c (nodes s) = true ->
+  exists cs', move_center (s, Some c0) c Keep tmp = Some cs'.
+Proof.
+  intros W Ht Hiso Hc0 Hc. unfold move_center. cbn [fst snd]. destruct (Nat.eqb c0 c); [eauto|].
+  pose proof (wf_tstruct s W) as T.
+  destruct (path_from_to_head s c0 c T Hc0 Hc) as [l El]. rewrite El. cbn [tl].
+  apply (move_fold_some tmp l s c0 W Ht Hiso).
+  pose proof (path_from_to_walk s c0 c T Hc0 Hc) as Hw. rewrite El in Hw. exact Hw.
+Qed.
+
+(* ==== shapes, part 1 ==== *)
+(* ---- tensor shapes: every edge keeps its dimension, every open leg too ------------------------------------------- *)
+(* the wire on the leg toward the parent is the edge's wire (both ends carry it, wf) *)
+Definition dims_kept (s s' : store) : Prop :=
+  (forall k nk nk', aget k (nodes s) = Some nk -> aget k (nodes s') = Some nk' ->
+      map (wdim s') (open_of nk' (tens s' k)) = map (wdim s) (open_of nk (tens s k))) /\
+  (forall k nk nk', aget k (nodes s) = Some nk -> aget k (nodes s') = Some nk' -> parent nk <> None ->
+      wdim s' (nth 0 (lax s' k nk') 0) = wdim s (nth 0 (lax s k nk) 0)).
+
+Lemma dims_kept_refl s : dims_kept s s.
+Proof. split; intros k nk nk' E E'; rewrite E in E'; injection E' as <-; reflexivity. Qed.
+
+Lemma dims_kept_trans s1 s2 s3 : same_tree (nodes s1) (nodes s2) -> dims_kept s1 s2 -> dims_kept s2 s3 -> dims_kept s1 s3.
+Proof.
+  intros S [A1 A2] [B1 B2]. split.
+  - intros k n1 n3 E1 E3. destruct (same_tree_some _ _ _ _ S E1) as (n2 & E2 & _). rewrite (B1 k n2 n3 E2 E3). apply (A1 k n1 n2 E1 E2).
+  - intros k n1 n3 E1 E3 Hp. destruct (same_tree_some _ _ _ _ S E1) as (n2 & E2 & P2 & _).
+    rewrite (B2 k n2 n3 E2 E3 ltac:(congruence)). apply (A2 k n1 n2 E1 E2 Hp).
+Qed.
+
+(* operations that keep every logical axis list and the dimension table *)
+Lemma dims_kept_lax s s' :
+  (forall k nk nk', aget k (nodes s) = Some nk -> aget k (nodes s') = Some nk' ->
+     lax s' k nk' = lax s k nk /\ parent nk' = parent nk /\ children nk' = children nk) ->
+  dims s' = dims s -> dims_kept s s'.
+Proof.
+  intros H Hd. assert (Hw : forall w, wdim s' w = wdim s w) by (intros w; unfold wdim; rewrite Hd; reflexivity).
+  split.
+  - intros k nk nk' E E'. destruct (H k nk nk' E E') as (L & P & C).
+    unfold open_of. fold (lax s' k nk'). fold (lax s k nk). rewrite L, (nvirt_ext nk' nk P C). apply map_ext. exact Hw.
+  - intros k nk nk' E E' _. destruct (H k nk nk' E E') as (L & _). rewrite L. apply Hw.
+Qed.
+
+Lemma acc_lax s n s' : wf s -> acc s n = Some s' ->
+  forall k nk nk', aget k (nodes s) = Some nk -> aget k (nodes s') = Some nk' ->
+     lax s' k nk' = lax s k nk /\ parent nk' = parent nk /\ children nk' = children nk.
+Proof.
+  intros W H k nk nk' E E'. destruct (acc_inv _ _ _ H) as (nd & t & Ha).
+  destruct (access_lax s n s' nd t k nk W Ha E) as (nk2 & E2 & P & C & L). rewrite E' in E2. injection E2 as <-. auto.
+Qed.
+
+Lemma set_fresh_lax s n s' : set_fresh s n = Some s' ->
+  forall k nk nk', aget k (nodes s) = Some nk -> aget k (nodes s') = Some nk' ->
+     lax s' k nk' = lax s k nk /\ parent nk' = parent nk /\ children nk' = children nk.
+Proof.
+  intros H k nk nk' E E'. destruct (set_fresh_facts _ _ _ H) as (t & Et & Hn & Ht & _).
+  rewrite Hn, E in E'. injection E' as <-. split; [|auto]. unfold lax, tens. rewrite Ht, aget_aset.
+  destruct (Nat.eqb_spec k n) as [->|_]; [rewrite Et; reflexivity|reflexivity].
+Qed.
+
+Lemma acc_dims_kept s n s' : wf s -> acc s n = Some s' -> dims_kept s s'.
+Proof.
+  intros W H. apply dims_kept_lax; [apply (acc_lax s n s' W H)|]. destruct (acc_facts _ _ _ H) as (_ & _ & _ & _ & _ & _ & _ & _ & _ & _ & D & _). exact D.
+Qed.
+
+Lemma site_update_lax s n s' : wf s -> site_update s n = Some s' ->
+  forall k nk nk', aget k (nodes s) = Some nk -> aget k (nodes s') = Some nk' ->
+     lax s' k nk' = lax s k nk /\ parent nk' = parent nk /\ children nk' = children nk.
+Proof.
+  unfold site_update. intros W H k nk nk' E E'. destruct (acc s n) as [s1|] eqn:E1; [|discriminate].
+  destruct (acc_same_tree _ _ _ E1) as [S1 _]. destruct (same_tree_some _ _ _ _ S1 E) as (n1 & En1 & _).
+  destruct (acc_lax s n s1 W E1 k nk n1 E En1) as (L1 & P1 & C1).
+  destruct (set_fresh_lax s1 n s' H k n1 nk' En1 E') as (L2 & P2 & C2). repeat split; congruence.
+Qed.
+
+Lemma site_update_dims_kept s n s' : wf s -> site_update s n = Some s' -> dims_kept s s'.
+Proof.
+  intros W H. apply dims_kept_lax; [apply (site_update_lax s n s' W H)|].
+  destruct (site_update_facts _ _ _ H) as (_ & _ & _ & _ & _ & _ & _ & _ & _ & _ & D & _). exact D.
+Qed.
+
+(* a wire that existed before a fresh one was registered keeps its dimension *)
+Lemma wdim_old s s' bd w : dims s' = dims s ++ [(next_wire s, bd)] -> w < next_wire s -> wdim s' w = wdim s w.
+Proof.
+  intros Hd Hw. unfold wdim. rewrite Hd, aget_app. destruct (aget w (dims s)); [reflexivity|]. cbn.
+  destruct (Nat.eqb_spec w (next_wire s)); [lia|reflexivity].
+Qed.
+
+Lemma wdim_new s s' bd : wf s -> dims s' = dims s ++ [(next_wire s, bd)] -> wdim s' (next_wire s) = bd.
+Proof.
+  intros W Hd. unfold wdim. rewrite Hd, aget_app.
+  assert (Hn : aget (next_wire s) (dims s) = None).
+  { apply aget_None. intros Hin. pose proof (wf_dims s W _ Hin). lia. }
+  rewrite Hn. cbn. rewrite Nat.eqb_refl. reflexivity.
+Qed.
+
+Lemma lax_wires s k nk w : wf s -> aget k (nodes s) = Some nk -> In w (lax s k nk) -> w < next_wire s.
+Proof.
+  intros W E Hin. pose proof (wf_tens s k nk W E) as Et. apply (wf_wires s W k (tens s k) w Et).
+  unfold lax, laxes in Hin. apply (permute_incl 0 (perm nk) (axes (tens s k))); [|exact Hin].
+  intros i Hi. pose proof (wf_axes_length s k nk W E) as HL. pose proof (wf_node_wf s k nk W E) as Hwf.
+  pose proof (nlegs_shape nk Hwf) as HS. destruct Hwf as [Hp _]. pose proof (perm_bound _ _ Hp i Hi) as Hb.
+  unfold wire, id in *. lia.
+Qed.
+
+(* ---- the move of the centre along the edge {a, b} -------------------------------------------------------------- *)
+Record deffect (s : store) (a b : id) (s' : store) : Prop := {
+  de_dims : exists bd nd leg, dims s' = dims s ++ [(next_wire s, bd)] /\ aget a (nodes s) = Some nd /\
+              neighbour_index nd b = Some leg /\ bd = wdim s (nth leg (lax s a nd) 0);
+  de_wire : exists nd' leg', aget a (nodes s') = Some nd' /\ neighbour_index nd' b = Some leg' /\
+              nth leg' (lax s' a nd') 0 = next_wire s;
+  de_open : forall k nk nk', aget k (nodes s) = Some nk -> aget k (nodes s') = Some nk' ->
+              open_of nk' (tens s' k) = open_of nk (tens s k);
+  de_other : forall k, k <> a -> k <> b -> aget k (nodes s') = aget k (nodes s) /\
+              (In k (akeys (nodes s)) -> aget k (tensors s') = aget k (tensors s));
+  de_tree : same_tree (nodes s) (nodes s')
+}.
+
+Lemma open_of_incl nk t : incl (open_of nk t) (laxes nk t).
+Proof. unfold open_of. intros x Hx. rewrite <- (firstn_skipn (nvirt nk) (laxes nk t)). apply in_or_app. right. exact Hx. Qed.
+
+Lemma deffect_dims_kept s a b s' : wf s -> wf s' -> a <> b -> deffect s a b s' -> dims_kept s s'.
+Proof.
+  intros W W' Nab [(bd & nd & leg & Hd & Ea & Hleg & Hbd) (nd' & leg' & Ea' & Hleg' & Hnw) Hopen Hother Htree].
+  assert (Hold : forall w, w < next_wire s -> wdim s' w = wdim s w) by (intros w; apply (wdim_old s s' bd w Hd)).
+  split.
+  - intros k nk nk' E E'. rewrite (Hopen k nk nk' E E'). apply map_ext_in. intros w Hw. apply Hold.
+    apply (lax_wires s k nk w W E). apply open_of_incl. exact Hw.
+  - intros k nk nk' E E' Hp. destruct (parent nk) as [p|] eqn:Pk; [clear Hp|congruence].
+    destruct (same_tree_some _ _ _ _ Htree E) as (nk2 & E2 & P2 & _). rewrite E' in E2. injection E2 as <-.
+    assert (Pk' : parent nk' = Some p) by congruence.
+    (* the wire toward the parent, seen from the parent *)
+    destruct (ni_par _ _ _ (wf_node s W k nk E) p Pk) as (pn & i & Ep & Hin & Hi & Hw).
+    destruct (ni_par _ _ _ (wf_node s' W' k nk' E') p Pk') as (pn' & i' & Ep' & Hin' & Hi' & Hw').
+    assert (Hunt : forall x nx nx', x <> a -> x <> b -> aget x (nodes s) = Some nx -> aget x (nodes s') = Some nx' ->
+                     nx' = nx /\ lax s' x nx' = lax s x nx).
+    { intros x nx nx' Xa Xb Ex Ex'. destruct (Hother x Xa Xb) as [On Ot]. rewrite On, Ex in Ex'. injection Ex' as <-.
+      split; [reflexivity|]. unfold lax, tens. rewrite (Ot (aget_Some_keys _ _ _ Ex)). reflexivity. }
+    assert (Hwold : forall x nx j, aget x (nodes s) = Some nx -> j < nlegs nx -> nth j (lax s x nx) 0 < next_wire s).
+    { intros x nx j Ex Hj. apply (lax_wires s x nx _ W Ex). apply nth_In. unfold lax. rewrite laxes_length. exact Hj. }
+    assert (Hk0 : 0 < nlegs nk).
+    { pose proof (ni_virt _ _ _ (wf_node s W k nk E)). unfold nvirt, nparents in H. rewrite Pk in H. lia. }
+    destruct (Nat.eq_dec k a) as [->|Hka]; [|destruct (Nat.eq_dec k b) as [->|Hkb]].
+    + (* k = a *)
+      rewrite Ea in E. injection E as <-. rewrite Ea' in E'. injection E' as <-.
+      destruct (Nat.eq_dec p b) as [->|Hpb].
+      * (* the moved edge, seen from a *)
+        assert (leg = 0) by (unfold neighbour_index in Hleg; rewrite Pk, Nat.eqb_refl in Hleg; congruence).
+        assert (leg' = 0) by (unfold neighbour_index in Hleg'; rewrite Pk', Nat.eqb_refl in Hleg'; congruence).
+        subst leg leg'. rewrite Hnw, (wdim_new s s' bd W Hd). exact Hbd.
+      * assert (Hpa : p <> a) by (intros ->; exact (wf_not_self_parent s a nd W Ea Pk)).
+        destruct (Hunt p pn pn' Hpa Hpb Ep Ep') as [-> Lp]. rewrite Hi in Hi'. injection Hi' as <-.
+        rewrite Hw', Lp, <- Hw. apply Hold. apply (Hwold a nd 0 Ea Hk0).
+    + (* k = b *)
+      destruct (Nat.eq_dec p a) as [->|Hpa].
+      * (* the moved edge, seen from b: the parent is a *)
+        rewrite Ea in Ep. injection Ep as <-. rewrite Ea' in Ep'. injection Ep' as <-.
+        rewrite Hleg in Hi. injection Hi as <-. rewrite Hleg' in Hi'. injection Hi' as <-.
+        rewrite Hw', Hnw, (wdim_new s s' bd W Hd), Hw. exact Hbd.
+      * assert (Hpb : p <> b) by (intros ->; exact (wf_not_self_parent s b nk W E Pk)).
+        destruct (Hunt p pn pn' Hpa Hpb Ep Ep') as [-> Lp]. rewrite Hi in Hi'. injection Hi' as <-.
+        rewrite Hw', Lp, <- Hw. apply Hold. apply (Hwold b nk 0 E Hk0).
+    + destruct (Hunt k nk nk' Hka Hkb E E') as [-> L]. rewrite L. apply Hold. apply (Hwold k nk 0 E Hk0).
+Qed.
+
+(* ==== shapes, part 2 ==== *)
+(* ---- the split of the centre toward a neighbour in KEEP mode: bond dimension and open legs ---------------------- *)
+Lemma split_site_dims_open s a b lid s1 nd0 :
+  wf s -> aget a (nodes s) = Some nd0 -> In b (neighbouring_nodes nd0) -> aget lid (nodes s) = None ->
+  split_site s a b lid = Some s1 ->
+  exists leg na nl,
+    neighbour_index nd0 b = Some leg /\
+    dims s1 = dims s ++ [(next_wire s, wdim s (nth leg (lax s a nd0) 0))] /\
+    aget a (nodes s1) = Some na /\ open_of na (tens s1 a) = open_of nd0 (tens s a) /\
+    aget lid (nodes s1) = Some nl /\ open_of nl (tens s1 lid) = [] /\
+    (forall k nk, k <> a -> aget k (nodes s) = Some nk ->
+       exists nk', aget k (nodes s1) = Some nk' /\ open_of nk' (tens s1 k) = open_of nk (tens s k)).
+Proof.
+  intros W Ea Hin Hl H. unfold split_site in H. rewrite Ea in H.
+  destruct (build_qr_leg_specs nd0 b) as [q r] eqn:Eqr.
+  pose proof (build_qr_specs_ok nd0 b Hin) as [Hq Hr]. rewrite Eqr in Hq, Hr. cbn [fst snd] in Hq, Hr.
+  assert (Hspec : spec_ok s a q r) by (intros nd' E'; rewrite Ea in E'; injection E' as <-; auto).
+  assert (Hids : ids_ok s a a lid) by (split; [left; reflexivity|right; apply aget_None; exact Hl]).
+  destruct (split_open_legs s a q r a lid 0 Keep 0 s1 nd0 W H Hspec Hids Ea) as (no & ni & Eno & Eni & Oo & Oi & Ooth).
+  destruct (split_new_def s a q r a lid 0 Keep 0 s1 {| kq := 0; kr := 0; kbond := 0; kinput := empty_sarr; kkind := 0; kmode := None |} W H)
+    as (sa & nd & t & ol & il & bd & Ha & Hlog & Fo & Fi & _ & Hbd & _ & _ & _ & _ & _ & _ & Hdims & _).
+  destruct (split_access_facts _ _ _ _ _ W Ha) as (nd0' & t0 & En0 & Et0 & End & Etr & Wa & En & Et & Hid & Hk & Hlax & Ht0).
+  rewrite Ea in En0. injection En0 as <-.
+  pose proof (wf_node_wf sa a nd Wa En) as Wnd.
+  assert (Hin' : In b (neighbouring_nodes nd)) by (rewrite End; exact Hin).
+  assert (Hndn : NoDup (neighbouring_nodes nd)) by (apply (ts_neighbours_nodup _ _ _ (wf_tstruct sa Wa) En)).
+  assert (Eqr' : build_qr_leg_specs nd b = (q, r)) by (rewrite End, build_qr_reset; exact Eqr).
+  destruct (build_qr_leg_specs_partition nd b q r Wnd Hndn Hin' Eqr') as (leg & ql & Hleg & Fq & Fr & Hperm & Hql).
+  rewrite Fi in Fr. injection Fr as ->.
+  assert (Hleg0 : neighbour_index nd0 b = Some leg).
+  { rewrite <- Hleg. rewrite End. apply neighbour_index_ext; reflexivity. }
+  exists leg, no, ni. split; [exact Hleg0|]. split.
+  { rewrite Hdims, Hbd. unfold sp_bd. cbn [qr_bond_dim permute map prod_list fold_right]. rewrite Nat.mul_1_r, Hlax. reflexivity. }
+  split; [exact Eno|]. split.
+  { rewrite Oo. assert (Hop : ls_open q = seq (nvirt nd0) (nopen nd0)).
+    { unfold build_qr_leg_specs in Eqr. destruct (match parent nd0 with Some p => Nat.eqb p b | None => false end); injection Eqr as <- _; reflexivity. }
+    rewrite Hop. unfold open_of. fold (lax s a nd0).
+    assert (HL : length (lax s a nd0) = nlegs nd0) by (unfold lax; apply laxes_length).
+    pose proof (ni_virt _ _ _ (wf_node s W a nd0 Ea)) as Hv.
+    rewrite map_nth_seq by (unfold nopen; lia). apply firstn_all2. rewrite skipn_length. unfold nopen. lia. }
+  split; [exact Eni|]. split.
+  { rewrite Oi. assert (Hop : ls_open r = []).
+    { unfold build_qr_leg_specs in Eqr. destruct (match parent nd0 with Some p => Nat.eqb p b | None => false end); injection Eqr as _ <-; reflexivity. }
+    rewrite Hop. reflexivity. }
+  intros k nk Hka Ek. destruct (Ooth k nk Hka Ek) as (nk' & E' & O' & _). eauto.
+Qed.
+
+(* open legs survive a read / a raw replacement *)
+Lemma open_of_lax s s' k nk nk' :
+  lax s' k nk' = lax s k nk /\ parent nk' = parent nk /\ children nk' = children nk ->
+  open_of nk' (tens s' k) = open_of nk (tens s k).
+Proof. intros (L & P & C). apply open_of_ext; assumption. Qed.
+
+(* a step_effect is a weffect *)
+Lemma step_effect_weffect s n nb tmp s' nd :
+  tstruct (nodes s) -> aget tmp (nodes s) = None -> aget n (nodes s) = Some nd -> In nb (neighbouring_nodes nd) ->
+  step_effect s n nb tmp s' nd -> weffect s n nb s' nd.
+Proof.
+  intros T Ht En Hin SE. destruct (se_node _ _ _ _ _ _ SE) as (nd' & t' & leg & A1 & A2 & A3 & A4 & A5 & A6 & A7).
+  destruct (se_defs _ _ _ _ _ _ SE) as (df & D1 & D2 & D3 & D4).
+  destruct (se_nb _ _ _ _ _ _ SE) as (nbn & nbn' & B1 & B2 & B3 & B4).
+  constructor.
+  - exists nd', t', leg, df. split; [exact A1|]. split; [exact A2|]. split; [rewrite A3, D2; reflexivity|].
+    split; [rewrite D1; apply in_or_app; right; left; reflexivity|]. split; [exact D3|]. split; [exact A4|].
+    split; [rewrite A5, D4; reflexivity|]. split; [exact A6|]. split; [|exact D4]. rewrite A7.
+    destruct (match parent nd with Some p => Nat.eqb p nb | None => false end) eqn:Hco; [apply Permutation_refl|].
+    symmetry. apply remove_first_perm. apply in_neighbouring in Hin. destruct Hin as [Hp|Hc]; [|exact Hc].
+    rewrite Hp, Nat.eqb_refl in Hco. discriminate.
+  - rewrite D1. intros x Hx. apply in_or_app. left. exact Hx.
+  - apply (se_other_n _ _ _ _ _ _ SE).
+  - intros k K1 K2 Hk. apply (se_other_t _ _ _ _ _ _ SE k K1 K2). intros ->. apply aget_None in Ht. contradiction.
+  - exists nbn, nbn'. split; [exact B1|]. split; [exact B2|]. split; [exact B3|]. rewrite B4.
+    destruct (match parent nd with Some p => Nat.eqb p nb | None => false end) eqn:Hco; [|apply Permutation_refl].
+    destruct (parent nd) as [p|] eqn:Hpn; [|discriminate]. apply Nat.eqb_eq in Hco. subst p.
+    destruct (ts_par _ T _ _ _ En Hpn) as (pn & Epn & Hnin). rewrite B1 in Epn. injection Epn as <-.
+    rewrite (remove_first_perm n (children nbn) Hnin) at 2. symmetry. apply Permutation_cons_append.
+  - split; [rewrite (se_keys _ _ _ _ _ _ SE); apply (ts_nd _ T)|].
+    rewrite <- !length_akeys, (se_keys _ _ _ _ _ _ SE). reflexivity.
+Qed.
+
+(* ==== shapes, part 3 ==== *)
+Lemma acc_open s n s' : wf s -> acc s n = Some s' ->
+  forall k nk, aget k (nodes s) = Some nk ->
+  exists nk', aget k (nodes s') = Some nk' /\ open_of nk' (tens s' k) = open_of nk (tens s k).
+Proof.
+  intros W H k nk E. destruct (acc_same_tree _ _ _ H) as [S _]. destruct (same_tree_some _ _ _ _ S E) as (nk' & E' & _).
+  exists nk'. split; [exact E'|]. apply open_of_lax. apply (acc_lax s n s' W H k nk nk' E E').
+Qed.
+
+Lemma site_update_open s n s' : wf s -> site_update s n = Some s' ->
+  forall k nk, aget k (nodes s) = Some nk ->
+  exists nk', aget k (nodes s') = Some nk' /\ open_of nk' (tens s' k) = open_of nk (tens s k).
+Proof.
+  intros W H k nk E. destruct (site_update_same_tree _ _ _ H) as [S _]. destruct (same_tree_some _ _ _ _ S E) as (nk' & E' & _).
+  exists nk'. split; [exact E'|]. apply open_of_lax. apply (site_update_lax s n s' W H k nk nk' E E').
+Qed.
+
+(* the bond wire in logical-axis form *)
+Lemma weffect_wire s a b s' nd : wf s' -> weffect s a b s' nd ->
+  exists nd' leg', aget a (nodes s') = Some nd' /\ neighbour_index nd' b = Some leg' /\ nth leg' (lax s' a nd') 0 = next_wire s.
+Proof.
+  intros W' WE. destruct (we_node _ _ _ _ _ WE) as (nd' & t' & leg & df & E1 & E2 & _ & _ & _ & E6 & E7 & _ & _ & E10).
+  exists nd', leg. split; [exact E1|]. split; [exact E6|].
+  unfold lax, laxes. rewrite (tens_aget _ _ _ E2). rewrite nth_permute; [transitivity (kbond df); [exact E7|exact E10]|].
+  pose proof (neighbour_index_bound _ _ _ E6). pose proof (ni_virt _ _ _ (wf_node s' W' a nd' E1)). unfold nlegs in *. lia.
+Qed.
+
+Lemma link_update_deffect s a b lid s' nd0 :
+  wf s -> aget a (nodes s) = Some nd0 -> In b (neighbouring_nodes nd0) -> aget lid (nodes s) = None ->
+  link_update s a b lid = Some s' -> deffect s a b s'.
+Proof.
+  intros W Ea Hin Hl H.
+  destruct (link_update_effect s a b lid s' nd0 W Ea Hin Hl H) as (W' & WE & Gl).
+  destruct (ts_neighbour_sym _ _ _ _ (wf_tstruct s W) Ea Hin) as (nbn & Eb & _ & Nba).
+  destruct (weffect_same_tree _ _ _ _ _ (wf_tstruct s W) Ea (not_eq_sym Nba) WE) as [S' _].
+  unfold link_update in H.
+  destruct (split_site s a b lid) as [s1|] eqn:E1; [|discriminate].
+  destruct (acc s1 a) as [s2|] eqn:E2; [|discriminate].
+  destruct (site_update s2 lid) as [s3|] eqn:E3; [|discriminate].
+  pose proof (split_site_wf _ _ _ _ _ _ W Ea Hin Hl E1) as W1.
+  pose proof (acc_wf _ _ _ W1 E2) as W2. pose proof (site_update_wf _ _ _ W2 E3) as W3.
+  assert (Nal : a <> lid) by (intros ->; congruence). assert (Nbl : b <> lid) by (intros ->; congruence).
+  destruct (split_site_dims_open s a b lid s1 nd0 W Ea Hin Hl E1) as (leg & na & nl & Hleg & Hd1 & Ena & Oa & Enl & Ol & Ooth).
+  destruct (acc_facts _ _ _ E2) as (_ & _ & _ & _ & _ & _ & _ & _ & _ & _ & D2 & _).
+  destruct (site_update_facts _ _ _ E3) as (_ & _ & _ & _ & _ & _ & _ & _ & _ & _ & D3 & _).
+  destruct (contract_explicit s3 lid b b s' W3 H ltac:(right; left; reflexivity))
+    as (p & c & pn0 & cn0 & nn & _ & _ & _ & _ & _ & _ & _ & _ & _ & _ & _ & _ & _ & _ & _ & D4 & _).
+  (* open legs in s3 *)
+  assert (O3 : forall k nk1, aget k (nodes s1) = Some nk1 ->
+            exists nk3, aget k (nodes s3) = Some nk3 /\ open_of nk3 (tens s3 k) = open_of nk1 (tens s1 k)).
+  { intros k nk1 Ek1. destruct (acc_open s1 a s2 W1 E2 k nk1 Ek1) as (nk2 & Ek2 & O2).
+    destruct (site_update_open s2 lid s3 W2 E3 k nk2 Ek2) as (nk3 & Ek3 & O3). exists nk3. split; [exact Ek3|congruence]. }
+  destruct (O3 lid nl Enl) as (nl3 & Enl3 & Ol3). rewrite Ol in Ol3.
+  destruct (Ooth b nbn Nba Eb) as (nb1 & Enb1 & Ob1). destruct (O3 b nb1 Enb1) as (nb3 & Enb3 & Ob3).
+  destruct (contract_open_rule s3 lid b b s' nl3 nb3 W3 H ltac:(right; left; reflexivity) Enl3 Enb3) as (nn' & Enn' & Onn & Orest).
+  constructor.
+  - exists (wdim s (nth leg (lax s a nd0) 0)), nd0, leg. split; [rewrite D4, D3, D2; exact Hd1|]. auto.
+  - apply (weffect_wire s a b s' nd0 W' WE).
+  - intros k nk nk' Ek Ek'. destruct (Nat.eq_dec k b) as [->|Hkb].
+    + rewrite Eb in Ek. injection Ek as <-. rewrite Enn' in Ek'. injection Ek' as <-.
+      rewrite Onn, Ol3. cbn [app]. congruence.
+    + assert (Hkl : k <> lid) by (intros ->; congruence).
+      assert (Hk1 : exists nk1, aget k (nodes s1) = Some nk1 /\ open_of nk1 (tens s1 k) = open_of nk (tens s k)).
+      { destruct (Nat.eq_dec k a) as [->|Hka].
+        - rewrite Ea in Ek. injection Ek as <-. eauto.
+        - apply (Ooth k nk Hka Ek). }
+      destruct Hk1 as (nk1 & Ek1 & Ok1). destruct (O3 k nk1 Ek1) as (nk3 & Ek3 & Ok3).
+      destruct (Orest k nk3 Ek3 Hkl Hkb) as (nk4 & Ek4 & _ & Ok4). rewrite Ek' in Ek4. injection Ek4 as <-. congruence.
+  - intros k Ka Kb. split; [apply (we_other_n _ _ _ _ _ WE k Ka Kb)|apply (we_other_t _ _ _ _ _ WE k Ka Kb)].
+  - exact S'.
+Qed.
+
+(* the same for one step of move_orthogonalization_center in KEEP mode *)
+Lemma qr_keep_deffect s a b tmp s' :
+  wf s -> aget tmp (nodes s) = None -> qr_to_neighbour s a b Keep tmp = Some s' ->
+  a <> b /\ wf s' /\ deffect s a b s'.
+Proof.
+  intros W Ht H. pose proof (wf_tstruct s W) as T.
+  destruct (qr_step_effect _ _ _ _ _ _ T Ht H) as (nd0 & Ea & Hin & SE).
+  pose proof (step_effect_weffect s a b tmp s' nd0 T Ht Ea Hin SE) as WE.
+  pose proof (qr_to_neighbour_wf _ _ _ _ _ _ W Ht H) as W'.
+  destruct (ts_neighbour_sym _ _ _ _ T Ea Hin) as (nbn & Eb & _ & Nba).
+  destruct (weffect_same_tree _ _ _ _ _ T Ea (not_eq_sym Nba) WE) as [S' _].
+  split; [exact (not_eq_sym Nba)|]. split; [exact W'|].
+  rewrite qr_keep_split in H. destruct (split_site s a b tmp) as [s1|] eqn:E1; [|discriminate].
+  pose proof (split_site_wf _ _ _ _ _ _ W Ea Hin Ht E1) as W1.
+  assert (Nal : a <> tmp) by (intros ->; congruence). assert (Nbl : b <> tmp) by (intros ->; congruence).
+  destruct (split_site_dims_open s a b tmp s1 nd0 W Ea Hin Ht E1) as (leg & na & nl & Hleg & Hd1 & Ena & Oa & Enl & Ol & Ooth).
+  destruct (contract_explicit s1 b tmp b s' W1 H ltac:(left; reflexivity))
+    as (p & c & pn0 & cn0 & nn & _ & _ & _ & _ & _ & _ & _ & _ & _ & _ & _ & _ & _ & _ & _ & D4 & _).
+  destruct (Ooth b nbn Nba Eb) as (nb1 & Enb1 & Ob1).
+  destruct (contract_open_rule s1 b tmp b s' nb1 nl W1 H ltac:(left; reflexivity) Enb1 Enl) as (nn' & Enn' & Onn & Orest).
+  constructor.
+  - exists (wdim s (nth leg (lax s a nd0) 0)), nd0, leg. split; [rewrite D4; exact Hd1|]. auto.
+  - apply (weffect_wire s a b s' nd0 W' WE).
+  - intros k nk nk' Ek Ek'. destruct (Nat.eq_dec k b) as [->|Hkb].
+    + rewrite Eb in Ek. injection Ek as <-. rewrite Enn' in Ek'. injection Ek' as <-.
+      rewrite Onn, Ol, app_nil_r. exact Ob1.
+    + assert (Hkl : k <> tmp) by (intros ->; congruence).
+      assert (Hk1 : exists nk1, aget k (nodes s1) = Some nk1 /\ open_of nk1 (tens s1 k) = open_of nk (tens s k)).
+      { destruct (Nat.eq_dec k a) as [->|Hka].
+        - rewrite Ea in Ek. injection Ek as <-. eauto.
+        - apply (Ooth k nk Hka Ek). }
+      destruct Hk1 as (nk1 & Ek1 & Ok1).
+      destruct (Orest k nk1 Ek1 Hkb Hkl) as (nk4 & Ek4 & _ & Ok4). rewrite Ek' in Ek4. injection Ek4 as <-. congruence.
+  - intros k Ka Kb. split; [apply (we_other_n _ _ _ _ _ WE k Ka Kb)|apply (we_other_t _ _ _ _ _ WE k Ka Kb)].
+  - exact S'.
+Qed.
+
+Lemma link_update_dims_kept s a b lid s' nd0 :
+  wf s -> aget a (nodes s) = Some nd0 -> In b (neighbouring_nodes nd0) -> aget lid (nodes s) = None ->
+  link_update s a b lid = Some s' -> dims_kept s s'.
+Proof.
+  intros W Ea Hin Hl H. destruct (link_update_effect s a b lid s' nd0 W Ea Hin Hl H) as (W' & _ & _).
+  destruct (ts_neighbour_sym _ _ _ _ (wf_tstruct s W) Ea Hin) as (nbn & Eb & _ & Nba).
+  apply (deffect_dims_kept s a b s' W W' (not_eq_sym Nba)). eapply link_update_deffect; eauto.
+Qed.
+
+Lemma move_fold_dims tmp : forall l s cur cs',
+  wf s -> aget tmp (nodes s) = None -> iso_check (s, Some cur) = true ->
+  fold_left (move_step Keep tmp) l (Some (s, Some cur)) = Some cs' -> dims_kept s (fst cs').
+Proof.
+  induction l as [|nb l IH]; intros s cur cs' W Ht Hiso H; cbn [fold_left] in H.
+  - injection H as <-. apply dims_kept_refl.
+  - cbn [move_step] in H. destruct (qr_to_neighbour s cur nb Keep tmp) as [s2|] eqn:E; [|rewrite move_fold_none in H; discriminate].
+    destruct (move_step_iso _ _ _ _ _ _ (wf_tstruct s W) Ht Hiso E) as (I2 & T2 & R2 & S2).
+    destruct (qr_keep_deffect s cur nb tmp s2 W Ht E) as (Hne & W2 & DE).
+    apply (dims_kept_trans s s2 (fst cs') S2); [apply (deffect_dims_kept s cur nb s2 W W2 Hne DE)|].
+    apply (IH s2 nb cs' W2 R2 I2 H).
+Qed.
+
+Lemma move_center_dims_kept s c0 c tmp cs' :
+  wf s -> aget tmp (nodes s) = None -> iso_check (s, Some c0) = true ->
+  move_center (s, Some c0) c Keep tmp = Some cs' -> dims_kept s (fst cs').
+Proof.
+  intros W Ht Hiso H. unfold move_center in H. cbn [fst snd] in H. destruct (Nat.eqb c0 c).
+  - injection H as <-. apply dims_kept_refl.
+  - apply (move_fold_dims tmp _ s c0 cs' W Ht Hiso H).
 Qed.
 
